@@ -420,6 +420,33 @@ class R:
             g.emit("wf64 %s" % y)
             g.count("sflip64:shared-operand-then-edit")
 
+    def inplace_tail_shared_episode(self):
+        """in-place And / AndNot / Xor / Or on a receiver whose buckets are flagged shared (copy-on-write clone): the argument empties the
+        FIRST bucket(s), thins a later one and ends before the receiver does, so the unmatched tail slides down; the receiver is then
+        edited in every surviving bucket and the sibling re-observed"""
+        g = self.g
+        for op in ("iandnot64", "iand64", "ixor64", "ior64"):
+            for form in ("cow", "plain"):
+                x, c, y = g.fresh("it"), g.fresh("it"), g.fresh("it")
+                g.emit("of64 %s %s" % (x, " ".join(str((k << 32) | v) for k in range(0, 6) for v in (3, 70000 + k))))
+                if form == "cow":
+                    g.emit("cowclone64 %s %s" % (c, x))
+                else:
+                    g.emit("clone64 %s %s" % (c, x))
+                if op == "iand64":
+                    g.emit("of64 %s %s" % (y, " ".join(str((k << 32) | v) for k, v in ((1, 3), (2, 3), (2, 70002)))))
+                else:
+                    g.emit("of64 %s %s" % (y, " ".join(str((k << 32) | v) for k, v in ((0, 3), (0, 70000), (1, 3), (2, 9)))))
+                g.emit("%s %s %s" % (op, x, y))
+                g.emit("alias64 %s %s %s" % (x, c, y))
+                for k in range(0, 6):
+                    g.emit("add64 %s %d" % (x, (k << 32) | 901))
+                    g.emit("rem64 %s %d" % (x, (k << 32) | (70000 + k)))
+                g.emit("dig64 %s" % c)
+                g.emit("dig64 %s" % y)
+                g.emit("wf64 %s" % x)
+                g.count("r64:inplace-tail-shared:" + op)
+
     def many_runs_episode(self):
         """batch iteration (every buffer length of a spread, incl. 0) over buckets whose chunks are RUN containers with several runs, an
         interval across 2^32, array and bitmap chunks: the batch boundary falls inside runs that are not the last of their chunk"""
@@ -444,6 +471,7 @@ class R:
         self.addmany_order_episode()
         self.many_runs_episode()
         self.sflip_shared_episode()
+        self.inplace_tail_shared_episode()
         self.boundary_episode(1)
         self.boundary_episode(0x80000000)
         self.boundary_episode()
